@@ -199,6 +199,24 @@ def check(case):
                             if len(res) != len(set(res)) or set(res) != exp:
                                 V.append((f'wordnet:{kind}:lemmatizer={lname}', f'{kind}({q!r}, {pos!r}) = {sorted(res)} '
                                           f'expected {sorted(exp)} :: words {[(x["pos"], x["forms"]) for x in words]}', None, g))
+            # history on ONE Wordnet object: the lemmatizer attribute is assigned after construction (the documented
+            # way, docs/api/wn.morphy.rst: `ewn.lemmatizer = morphy.Morphy(ewn)`) and swapped between queries; every
+            # answer must be the union for the lemmatizer in place at the time of the call
+            with warnings.catch_warnings():
+                warnings.simplefilter('ignore')
+                wh = wn.Wordnet(lexicon=f'{lid}:1', expand='')
+            for lname, lem in (('none', None), ('morphy-init', m), ('morphy', un), ('none', None), ('morphy-init', m)):
+                wh.lemmatizer = lem
+                for q in qs[:6] + qs[-3:]:
+                    for pos in (None, 'n', 'v'):
+                        for kind, fn in (('words', wh.words), ('synsets', wh.synsets)):
+                            n += 1
+                            res = [x.id for x in fn(q, pos)]
+                            exp = ref_find(words, kind, q, pos, True, True, lem)
+                            if len(res) != len(set(res)) or set(res) != exp:
+                                V.append((f'wordnet:{kind}:lemmatizer-reassigned', f'after assigning .lemmatizer = {lname}: '
+                                          f'{kind}({q!r}, {pos!r}) = {sorted(res)} expected {sorted(exp)} :: words '
+                                          f'{[(x["pos"], x["forms"]) for x in words]}', None, g))
             digs.append(runner.digest(obs))
         return {'v': V, 'digs': digs, 'nt': len(digs), 'n': n}
     finally:
